@@ -434,11 +434,15 @@ class Connection(ExportImport):
                 del obj._p_oid
                 if obj._p_changed:
                     obj._p_changed = False
-            elif oid in self._creating:
+            elif (oid in self._creating
+                  or (self._savepoint_storage is not None
+                      and oid in self._savepoint_storage.creating)):
                 # A new object that was explicitly added and has already
-                # been stored by the commit that is failing.  It is
-                # disowned by _invalidate_creating(); it must keep its
-                # state, which cannot be loaded from anywhere.
+                # been stored by the commit that is failing, or a new
+                # object that a savepoint has saved and that was changed
+                # again.  It is disowned by _invalidate_creating(); it
+                # must keep its state, which cannot be loaded from
+                # anywhere.
                 pass
             else:
                 # Note: If we invalidate a non-ghostifiable object
